@@ -59,6 +59,19 @@ type Net struct {
 	// flight (a structural deadlock of the two single-threaded endpoints); the
 	// transport then closes both directions so that every call returns.
 	Stalled bool
+	idle    [2]bool // party (0 = client, 1 = server) is not inside any call and will not act by itself
+}
+
+// SetIdle declares that a party (0 = client, 1 = server) is outside any call
+// (e.g. its Handshake returned while the peer is still handshaking). An idle
+// party counts as "cannot make progress" for stall detection.
+func (n *Net) SetIdle(party int, idle bool) {
+	n.mu.Lock()
+	n.idle[party] = idle
+	if idle {
+		n.stallCheckLocked()
+	}
+	n.mu.Unlock()
 }
 
 // Writes returns copies of all endpoint Write calls in direction d.
@@ -194,11 +207,21 @@ func (n *Net) injectLocked(d Dir, data []byte) {
 // InjectFromMitm may be called from inside the Mitm callback only.
 func (n *Net) InjectFromMitm(d Dir, data []byte) { n.injectLocked(d, data) }
 
-// stallCheckLocked: both endpoints parked reading, nothing buffered, nothing closed.
+// stallCheckLocked: no party can make progress — each is idle or parked in Read
+// with nothing buffered — while at least one is parked and nothing is closed.
 func (n *Net) stallCheckLocked() {
 	a, b := n.h[0], n.h[1]
-	if a.waiting > 0 && b.waiting > 0 && len(a.buf) == 0 && len(b.buf) == 0 &&
-		!a.closed && !b.closed && !a.rclosed && !b.rclosed && !a.deadline && !b.deadline {
+	if a.closed || b.closed || a.rclosed || b.rclosed || a.deadline || b.deadline {
+		return
+	}
+	// party 0 (client) reads h[S2C]; party 1 (server) reads h[C2S]
+	blocked := func(p int) bool {
+		in := n.h[1-p]
+		return in.waiting > 0 && len(in.buf) == 0
+	}
+	stuck0 := n.idle[0] || blocked(0)
+	stuck1 := n.idle[1] || blocked(1)
+	if stuck0 && stuck1 && (blocked(0) || blocked(1)) {
 		n.Stalled = true
 		a.closed, b.closed = true, true
 		a.cond.Broadcast()
